@@ -14,7 +14,7 @@ func init() {
 
 func init() {
 	register(&propDef{ID: "C18", Title: "No request, watched object or configuration can crash or wedge a daemon",
-		Explanation: "Decides four families of necessary conditions, each exact on its instances: (R1) results of module functions that can return (nil, nil) (found automatically; through interface dispatch too) are dereferenced only behind a nil test of the same value; (R2) the optional fields policy.ingressRule / policy.egressRule are dereferenced only behind a nil test of the same access path; (R3) no loop continues on `i <= bound` with i++ on a fixed-width counter, and the IP range walk increments only while first != last; (R4) every lock acquisition is released on every return (explicitly or by defer), every lock-wrapper releaser is deferred immediately, the lock-order graph is acyclic and no lock class is re-acquired while held; (R5) the policy name table has one entry per declared policy; (R6) the page/size query parameters are returned by their parsers only inside a constant range (their product feeds a slice bound). Does not decide index/slice bounds, type assertions, division, recursion depth, general termination, or panics inside dependencies.",
+		Explanation: "Decides four families of necessary conditions, each exact on its instances: (R1) results of module functions that can return (nil, nil) (found automatically; through interface dispatch too) are dereferenced only behind a nil test of the same value; (R2) the optional fields policy.ingressRule / policy.egressRule are dereferenced only behind a nil test of the same access path; (R3) no loop continues on `i <= bound` with i++ on a fixed-width counter, and the IP range walk increments only while first != last; (R4) every lock acquisition is released on every return (explicitly or by defer), every lock-wrapper releaser is deferred immediately, the lock-order graph is acyclic and no lock class is re-acquired while held; (R5) the policy name table has one entry per declared policy; (R7) in the pool decoder every pointer decoded from JSON (pointer fields, elements of slices of pointers) is dereferenced only behind a nil test; (R6) the page/size query parameters are returned by their parsers only inside a constant range (their product feeds a slice bound). Does not decide index/slice bounds, type assertions, division, recursion depth, general termination, or panics inside dependencies.",
 		Assumptions: []string{"CFG paths; no value correlation (one listed exemption relies on one)"},
 		Run: func(c *Ctx) {
 			c.Rule("C18.R1", "optional results checked", 6)
@@ -29,6 +29,8 @@ func init() {
 			ruleLockOrder(c, "C18.R4")
 			c.Rule("C18.R5", "policy tables exhaustive", 6)
 			rulePolicyDerivation(c, "C18.R5")
+			c.Rule("C18.R7", "pointers decoded from the floating-IP configuration are nil-tested before use", 3)
+			ruleDecodedPointers(c, "C18.R7")
 			c.Rule("C18.R6", "paging parameters clamped to a constant range", 2)
 			rulePagingClamped(c, "C18.R6")
 		}})
